@@ -293,6 +293,11 @@ def erase_named_tuples(trees):
                                 taken.add(x.id)
                     elif isinstance(b, ast.AnnAssign) and isinstance(b.target, ast.Name):
                         taken.add(b.target.id)
+    # ... or is used as a method of some (possibly external) object: graph.predecessors(t)
+    for t in trees:
+        for n in ast.walk(t):
+            if isinstance(n, ast.Call) and isinstance(n.func, ast.Attribute):
+                taken.add(n.func.attr)
     index = {}
     for tn, fs in types.items():
         for i, f in enumerate(fs):
@@ -318,6 +323,24 @@ def erase_named_tuples(trees):
             return None
         return ast.copy_location(ast.Tuple(elts=vals, ctx=ast.Load()), call)
 
+    # functions all of whose returns build one record type: their result is such a record
+    returns_type = {}
+    seen_names = {}
+    for t in trees:
+        for fn in ast.walk(t):
+            if isinstance(fn, (ast.FunctionDef, ast.AsyncFunctionDef)):
+                seen_names[fn.name] = seen_names.get(fn.name, 0) + 1
+                rts = set()
+                for r in ast.walk(fn):
+                    if isinstance(r, ast.Return):
+                        v = r.value
+                        vs = [v.body, v.orelse] if isinstance(v, ast.IfExp) else [v]
+                        for x in vs:
+                            rts.add(ctor(x) if isinstance(x, ast.Call) else None)
+                if len(rts) == 1 and None not in rts:
+                    returns_type[fn.name] = next(iter(rts))
+    returns_type = {k: v for k, v in returns_type.items() if seen_names.get(k) == 1}
+
     class Erase(ast.NodeTransformer):
         def __init__(self):
             self.local = [{}]      # name -> type name, per function
@@ -330,6 +353,10 @@ def erase_named_tuples(trees):
                     v = n.value
                     if isinstance(v, ast.Call) and ctor(v):
                         env[n.targets[0].id] = ctor(v)
+                    elif isinstance(v, ast.Call) and (
+                            v.func.attr if isinstance(v.func, ast.Attribute) else getattr(v.func, 'id', None)) in returns_type:
+                        env[n.targets[0].id] = returns_type[
+                            v.func.attr if isinstance(v.func, ast.Attribute) else v.func.id]
                     elif isinstance(v, (ast.ListComp, ast.GeneratorExp)) and isinstance(v.elt, ast.Call) and ctor(v.elt):
                         lists[n.targets[0].id] = ctor(v.elt)
                     elif isinstance(v, (ast.List, ast.Tuple)) and v.elts and all(
